@@ -51,7 +51,7 @@ CHECKS = {
          "(FieldLimbs: 5x51 at 3x3 bits; FieldLimbs32: 10x25.5 at 4 and 6 alternating limbs incl. Mul's in-place doubling and Sub's partial carry) - exact residues, no underflow, canonical Contract for every representation, "
          "with refuted controls; FieldSquare: the squaring routines term by term at 5 / 10 limbs (Square and SquareTimes of the 64-bit file have different carry schemes), every reduced operand; FieldBounds32 / FieldBounds51: interval analysis at the real limb sizes of every point formula on both layouts (no uint32 / uint64 wrap, no underflow; controls refuted); decode algorithm over small fields"),
  "C19": ("4 C19", "R1 (TLC, exhaustive at scaled sizes): recodings; Barrett reduction abstractly (two conditional subtractions suffice) and limb by limb (ModmLimbs: truncated q2 product, shift/mask cuts, borrow chains, "
-         "Mul's q1/r1 split, Add) for every double-length input and every pair of reduced scalars, with refuted controls; R3 (sampling with an exact oracle): reduction of 0..64-byte strings at every quotient size and boundary, Add/Mul/Contract/reduce, both recodings "
+         "Mul's q1/r1 split, Add) for every double-length input and every pair of reduced scalars, with refuted controls; the same transcription at the real sizes (ModmLimbsBig) predicts barrettReduce limb for limb on independent q1 / r1 (binding); R3 (sampling with an exact oracle): reduction of 0..64-byte strings at every quotient size and boundary, Add/Mul/Contract/reduce, both recodings "
          "(digit sum = value, digit ranges, digit-for-digit equality with the TLA+ transcription), vartime helpers; both limb layouts; all identities evaluated by TLC in BigNat"),
  "C17": ("4 C17", "R1: exhaustive TLC model check of the Bos-Coster heap algorithm (2-bit limbs, formal points): sum preserved at every step, truncated comparisons exact, heap order, result exact unless "
          "flagged design-inexact; R3: every iteration of the real multiScalarmultVartime (heap hook) replayed by TLC on the real 253-bit scalars, result compared with the exact sum; "
